@@ -222,14 +222,19 @@ func runCLI(tool string, in []byte, chunks []int, mode string) (out []byte, stde
 	var so, se bytes.Buffer
 	cmd.Stdout, cmd.Stderr = &so, &se
 	var stdin io.WriteCloser
-	if mode == "file" {
+	if mode == "file" || mode == "file-offset" {
 		f, e := os.CreateTemp(dir, "stdin-*")
 		if e != nil {
 			return nil, nil, 0, e
 		}
 		defer os.Remove(f.Name())
+		header := ""
+		if mode == "file-offset" { // { read -r subject; tool; } < message : the tool inherits a non-zero offset
+			header = "Subject: <b>not part of the document</b>\n"
+		}
+		f.WriteString(header)
 		f.Write(in)
-		f.Seek(0, 0)
+		f.Seek(int64(len(header)), 0)
 		defer f.Close()
 		cmd.Stdin = f
 		stdin = nopWriteCloser{}
@@ -476,8 +481,8 @@ func runC15(planJSON []byte) (*RunResult, error) {
 		res.Evals++
 		res.Nontrivial++
 		res.count("cli_execs."+pl.CLI, 1)
-		if pr.Stdin == "file" {
-			res.count("cli_stdin_regular_file", 1)
+		if pr.Stdin != "" {
+			res.count("cli_stdin_regular_"+pr.Stdin, 1)
 		}
 		fmt.Fprintf(dig, "cli %s out=%s code=%d\n", pl.CLI, digestBytes(out), code)
 		ref := refFor(-1)
@@ -560,8 +565,8 @@ func runC15(planJSON []byte) (*RunResult, error) {
 		for i := 0; i < 2; i++ {
 			s := pl.Schedules[r.Intn(len(pl.Schedules))]
 			mode := ""
-			if i == 1 && r.Bool(0.5) {
-				mode = "file"
+			if i == 1 && r.Bool(0.6) {
+				mode = r.Pick([]string{"file", "file", "file-offset"})
 			}
 			if err := checkCLI(C15Probe{Entry: "cli", Read: ReadPlan{Chunks: s.Chunks}, Trunc: -1, Stdin: mode}); err != nil {
 				return nil, err
